@@ -7,6 +7,7 @@ mod db;
 mod flock;
 mod image;
 mod seglog;
+mod shards;
 mod iohook;
 mod ovl;
 mod stress;
@@ -59,6 +60,7 @@ fn main() {
         "bitops-node" => bitops::run_nodes(seed, cases, &mut sink),
         "seglog" => seglog::run(seed, cases, &mut sink),
         "triepos" => triepos::run(seed, cases, &mut sink),
+        "shards" => shards::run(seed, cases, &mut sink),
         "core-pp" => core_pp::run(seed, cases, &mut sink),
         "core-mp" => core_mp::run(seed, cases, &mut sink),
         "core-mp-corpus" => {
